@@ -779,7 +779,16 @@ func (sc *serverConn) closeStream(st *stream, err error) {
 	delete(sc.streams, st.id)
 	if p := st.body; p != nil {
 		// Return any buffered unread bytes worth of conn-level flow control.
-		sc.sendWindowUpdate(nil, p.Len())
+		// They are counted and taken away from the handler in one step: a
+		// concurrent Read either got its bytes before (and reports them
+		// through noteBodyRead) or gets the error, so nothing is credited
+		// twice. A more specific error the body was already closed with
+		// (e.g. Content-Length mismatch) is what the handler keeps seeing.
+		berr := err
+		if e := p.Err(); e != nil && e != io.EOF {
+			berr = e
+		}
+		sc.sendWindowUpdate(nil, p.BreakWithErrorAndLen(berr))
 		p.CloseWithError(err)
 		p.Release(&fixBufferPool)
 	}
